@@ -82,6 +82,9 @@ def menus(tier, nleaves):
 def _work(chunk):
     i, n = chunk
     acc = runtime.Acc()
+    if i < 0:
+        history_checks(acc, -i - 1, n)
+        return acc
     nmax = 4
     structs = [(par, links) for par, links in LY.structures(nmax, 2, 3) if not LY.leaf_cycle(par, links)]
     for par, links in structs[i::n]:
@@ -133,15 +136,99 @@ def _work(chunk):
     return acc
 
 
+def abstract_of(w):
+    """(ids, parents, links, durations) read back from the live WBS through public getters."""
+    ts = list(w.tasks)
+    idx = {id(t): k for k, t in enumerate(ts)}
+    par = tuple(idx[id(t.parent)] if t.parent is not None else None for t in ts)
+    links = [(idx[id(p)], k) for k, t in enumerate(ts) for p in t.predecessors if id(p) in idx]
+    durs = {k: max(F(t.estimate) - F(t.spent), Fraction(0)) for k, t in enumerate(ts) if not len(t.children)}
+    external = any(id(p) not in idx for t in ts for p in t.predecessors)
+    return [t.id for t in ts], par, links, durs, external
+
+
+def history_checks(acc, part, parts):
+    """critical_path() is called, the same WBS is edited through the public API, and it is called again: the second
+    answer must be the one for the edited WBS (nothing about the first call may be remembered)."""
+    from pjplan import Task
+    structs = [(par, links) for par, links in LY.structures(3, 2, 2) if not LY.leaf_cycle(par, links)]
+    for par, links in structs[part::parts]:
+        n = len(par)
+        lv = [k for k in range(n) if LY.is_leaf(par, k)]
+        for ests in ((8,) * len(lv), (3, 8, 5)[:len(lv)]):
+            attrs = {k: {'estimate': ests[j]} for j, k in enumerate(lv)}
+            edits = []
+            for tgt in list(range(n)) + [None]:
+                for e in (2, 20):
+                    edits.append(('add-leaf', tgt, e))
+            for k in lv:
+                edits.append(('estimate', k, 30))
+                edits.append(('spent', k, 100))
+                edits.append(('remove', k, None))
+                for tgt in list(range(n)) + [None]:
+                    if tgt != k and tgt != par[k]:
+                        edits.append(('move', k, tgt))
+            for p_ in range(n):
+                for s_ in range(n):
+                    if p_ != s_:
+                        edits.append(('link', p_, s_))
+            for (p_, s_) in links:
+                edits.append(('unlink', p_, s_))
+            for ed in edits:
+                w, objs = build(par, links, attrs)
+                case = {'parents': list(par), 'links': [list(x) for x in links], 'estimates': list(ests), 'edit': list(ed)}
+                try:
+                    first = [t.id for t in w.critical_path()]
+                    kind = ed[0]
+                    if kind == 'add-leaf':
+                        t = Task(n + 1, name='new', estimate=ed[2])
+                        if ed[1] is None:
+                            w.roots.append(t)
+                        else:
+                            objs[ed[1]].children.append(t)
+                    elif kind == 'estimate':
+                        objs[ed[1]].estimate = ed[2]
+                    elif kind == 'spent':
+                        objs[ed[1]].spent = ed[2]
+                    elif kind == 'remove':
+                        w.remove(objs[ed[1]])
+                    elif kind == 'move':
+                        objs[ed[1]].parent = None if ed[2] is None else objs[ed[2]]
+                    elif kind == 'link':
+                        objs[ed[2]].predecessors.append(objs[ed[1]])
+                    elif kind == 'unlink':
+                        objs[ed[2]].predecessors.remove(objs[ed[1]])
+                except RuntimeError:
+                    continue  # the edit is not legal on this structure
+                ids, par2, links2, durs2, external = abstract_of(w)
+                if external or LY.leaf_cycle(par2, links2):
+                    continue  # dependencies on tasks outside the WBS are outside the domain (a removed task stays linked)
+                exp = {ids[k] for k in reference(par2, links2, durs2)}
+                acc.count('evaluations')
+                acc.count('history_cases')
+                acc.count('nontrivial')
+                try:
+                    got = [t.id for t in w.critical_path()]
+                    fresh = [t.id for t in w.clone().critical_path()]
+                except Exception as ex:  # noqa
+                    acc.violation('C12', f'critical_path/history-exception-{type(ex).__name__}/{ed[0]}',
+                                  f'second critical_path() after {ed} raised {type(ex).__name__}: {ex}', case)
+                    continue
+                if set(got) != exp:
+                    acc.violation('C12', f'critical_path/stale-after-edit/{ed[0]}',
+                                  f'after {ed}: critical_path() = {sorted(got)}, zero-float leaves of the edited WBS are {sorted(exp)} '
+                                  f'(first call gave {sorted(first)}, a fresh clone gives {sorted(fresh)})', case)
+
+
 def run(rep):
     global _TIER
     _TIER = rep.tier
     nw = runtime.n_workers()
     k = nw * 4
-    runtime.run_chunks(_work, [(i, k) for i in range(k)], rep.acc)
+    runtime.run_chunks(_work, [(i, k) for i in range(k)] + [(-i - 1, nw) for i in range(nw)], rep.acc)
     c = rep.acc.counters
     rep.coverage.update({
-        'evaluations': c['evaluations'], 'distinct_nontrivial': c['nontrivial'],
+        'evaluations': c['evaluations'], 'distinct_nontrivial': c['nontrivial'], 'call_edit_call_histories': c['history_cases'],
         'rule': 'all ordered forests with <= 4 tasks x all link sets (<=2 links, <=3 for <=3 tasks; links on leaves and on summaries; '
                 'leaf-cycle structures excluded) x per-leaf (estimate, spent) from a dyadic menu and a decimal menu {0.1,0.2,0.3}; '
                 'reference = longest path over the leaf-expanded network in exact rationals; non-trivial = inputs where some leaf has '
